@@ -47,7 +47,8 @@ def run_one(m, checks, tier, keep, extra_env, only_given=False):
         res["error"] = str(exc)
         shutil.rmtree(root, ignore_errors=True)
         return res
-    env = dict(os.environ, VERIF_REPO=root, VERIF_TMP="/tmp")
+    env = dict(os.environ, VERIF_REPO=root, VERIF_TMP="/tmp", VERIF_EVIDENCE_DIR=os.path.join(root, "evidence"),
+               VERIF_REPLAY_DIR=os.path.join(root, "replay"))
     env.update(extra_env)
     mine = m["expect"] + m.get("also", [])
     if checks and not only_given:
@@ -56,7 +57,11 @@ def run_one(m, checks, tier, keep, extra_env, only_given=False):
         run_these = checks or mine
     for c in run_these:
         t0 = time.time()
-        p = subprocess.run([os.path.join(HERE, "check"), c, tier], env=env, capture_output=True, text=True, timeout=3600)
+        this_tier, this_env = tier, env
+        if c in m.get("thorough", []):
+            this_tier = "thorough"
+            this_env = dict(env, VERIF_BUDGET_SCALE="0.08", VERIF_SHARDS="2")
+        p = subprocess.run([os.path.join(HERE, "check"), c, this_tier], env=this_env, capture_output=True, text=True, timeout=3600)
         out = p.stdout + p.stderr
         clause = re.findall(r"clause=(\S+)", out)
         res["results"][c] = {"rc": p.returncode, "fired": p.returncode == 1 and "VIOLATION property=" in out,
